@@ -567,6 +567,69 @@ def run(prog, rep, tier):
         if after_spawn or c.bb in L:
             rep.violation(R65, PL + "|colour", "processing_loop: color_rand() (a stateful sequence) is called after workers were started (line %d); the colour a file gets would depend on message arrival order" % c.line)
 
+    # ------------------------------------------------------------ R6.8
+    # The print gate waits until every source registered in the FileInfo map has reported.  A source
+    # is registered (`insert(pathid, false)`) in the set-up loop, workers are spawned by a later loop
+    # over another per-source map.  Necessary condition: the two maps receive their entry together
+    # (neither insert can be reached without the other inside one iteration); otherwise a source that
+    # is dismissed early stays "expected" forever and nothing is ever printed.
+    R68 = rep.rule("R6.8", "a source is registered as awaiting FileInfo exactly when it is entered in the map the spawn loop iterates")
+    b = prog.body(PL)
+    spawns = [c for c in b.live_calls() if c.d.endswith("Builder::spawn") or c.d.endswith("thread::spawn")]
+    if len(spawns) != 1:
+        raise CheckerError("processing_loop: %d spawn sites" % len(spawns))
+    sp = spawns[0]
+    hdrs2 = [h for (tl, h) in b.back_edges() if sp.bb in b.loop_blocks(h)]
+    iterated = set()
+    for h in hdrs2:
+        L2 = b.loop_blocks(h)
+        for c in b.live_calls():
+            if c.bb in L2 and (c.o.endswith("Iterator::next") or c.d.endswith("::next")) and b.dominates(c.bb, sp.bb):
+                for o in b.origins(c.args[0], through_calls=("::into_iter", "::deref", "::iter", "::keys", "::values", "::iter_mut")):
+                    if o[0] == "local" and b.local_name(o[1]):
+                        iterated.add(o[1])
+                    elif o[0] == "call" and o[2].split("::")[-1] in ("with_capacity", "new"):
+                        t_ = b.term(o[1])
+                        if len(t_[3]) == 1 and b.local_name(t_[3][0]):
+                            iterated.add(t_[3][0])
+    regs = []
+    for c in b.live_calls():
+        if c.d.split("::")[-1] == "insert" and ("HashMap" in c.d or "BTreeMap" in c.d):
+            if len(c.args) == 3 and c.args[2][0] == "k" and c.args[2][2] is False and "bool" in (c.callee.get("self") or c.f):
+                regs.append(c)
+    if not iterated or not regs:
+        raise CheckerError("processing_loop: spawn-loop map (%s) or FileInfo registration (%d) not recognised" % (sorted(iterated), len(regs)))
+
+    def _target_local(c):
+        import flow
+        return flow.named_target(b, c.args[0])
+    entries = [c for c in b.live_calls() if c.d.split("::")[-1] == "insert" and ("HashMap" in c.d or "BTreeMap" in c.d) and _target_local(c) in iterated]
+    if not entries:
+        raise CheckerError("processing_loop: no insert into the map the spawn loop iterates")
+    for r in regs:
+        hs = [h for (tl, h) in b.back_edges() if r.bb in b.loop_blocks(h)]
+        ok = False
+        why = "no entry insert in the same loop"
+        for e in entries:
+            if not any(e.bb in b.loop_blocks(h) for h in hs):
+                continue
+            first, second = (r, e) if b.dominates(r.bb, e.bb) else ((e, r) if b.dominates(e.bb, r.bb) else (None, None))
+            if first is None:
+                why = "neither insert dominates the other"
+                continue
+            # every way on from `first` (next iteration or leaving the loop) passes `second`
+            leaks = [x for x in b.reachable(first.target, {second.bb}) if x in hs or (x not in b.loop_blocks(hs[0]) and b.term(x)[0] != "unreachable")] if hs else []
+            leaks = [x for x in leaks if not (b.term(x)[0] == "call" and b.term(x)[4] is None)]  # process::exit & co
+            if leaks:
+                why = "after the %s insert (line %d) the iteration can continue or end (line %s) without the %s insert" % (
+                    "registration" if first is r else "entry", first.line, b.blocks[sorted(leaks)[0]].get("l"), "entry" if first is r else "registration")
+                continue
+            ok = True
+        rep.examined(R68, "%s|registration" % PL, sample={"registration_line": r.line, "spawn_loop_iterates": sorted(b.local_name(x) for x in iterated), "entry_inserts": [e.line for e in entries], "paired": ok})
+        if not ok:
+            rep.violation(R68, "%s|registration" % PL, "processing_loop: a source is registered as awaiting FileInfo (line %d) but is not entered in %s, which the spawn loop iterates: %s; "
+                          "a dismissed source (empty or tiny file) then blocks printing of every other source" % (r.line, sorted(b.local_name(x) for x in iterated), why))
+
     return rep.finish(
         "Static necessary-condition check of the coordination protocol: typestate fixpoint of the worker protocol over all CFG paths of the four "
         "worker functions (no return before FileInfo, no send after FileSummary), the coordinator's wait condition and books (C01 R1.2/R1.3), "
